@@ -63,9 +63,7 @@ Definition ed_step (t : dtab) (o : dop) : dtab * dout :=
     else (upd_alarm t k (fun a => {| al_code := al_code a; al_text := al_text a; al_enabled := on; al_set := al_set a |}), DAck 0)
   | DListAlarms ids =>
     let ids' := match ids with [] => map fst (alarms t) | _ => ids end in
-    if forallb (fun k => known k (alarms t)) ids'
-    then (t, DAlarms (map (fun k => match rlookup k (alarms t) with Some a => al_row k a | None => (k, 0, ""%string) end) ids'))
-    else (t, DAbort)                                        (* KeyError in the handler *)
+    (t, DAlarms (map (fun k => match rlookup k (alarms t) with Some a => al_row k a | None => (k, -1, ""%string) end) ids'))   (* unknown: b"" and "" *)
   | DListEnabled => (t, DAlarms (map (fun p => al_row (fst p) (snd p)) (filter (fun p => al_enabled (snd p)) (alarms t))))
   | DSetAlarm k =>
     match rlookup k (alarms t) with
